@@ -74,17 +74,16 @@ def finish(prop, pdef, tier, seed, reg, kentries, kres, ventries, vres, wall, sc
         import replay_run
         replay_bin = replay_run.build(scratch, log)
     for f in mine:
-        still = True
-        if f.get("history") and replay_bin:
-            import replay_run
-            still = replay_run.witness_fails(replay_bin, f, log)
         covered = [o for o in unexplained if o["id"] in f.get("obligations", [])]
+        if f.get("history"):
+            import replay_run
+            still = bool(replay_bin) and replay_run.witness_fails(replay_bin, f, log)
+        else:
+            # identified by the contract clause alone
+            still = bool(covered)
         if still:
             known_lines.append(f"KNOWN-FINDING: property={prop} {f['id']}: {f['what']}")
             unexplained = [o for o in unexplained if o not in covered]
-        elif f.get("obligations"):
-            # the witness no longer fails; obligations listed for it must now pass (else they are violations)
-            pass
     for l in known_lines:
         log(l)
 
